@@ -5,8 +5,9 @@ CONSTANTS
   MaxLen2 = 3
   MaxLenPre = 4
   Ms = {0, 2}
-  Pres = {"none", "discard", "break"}
+  Pres = {"none", "discard", "break", "sel"}
   D5_TimeoutToLastAction = FALSE
   D15_BreakBypassesHold = FALSE
+  M_BusyIgnoresSelector = TRUE
 INVARIANTS TypeOK TimeoutOnlyWhileJoining BusyIffJoining JoiningHasInitial StatementOK ExplainedByDeliveredTimeouts DevSwitched
 CHECK_DEADLOCK FALSE
